@@ -1241,6 +1241,18 @@ def m_wrapping(op):
     return m
 
 
+def m_saturating(op):
+    def m(eng, st, args, info):
+        a, b = args
+        if is_const(a) and is_const(b):
+            bits = MASKS.get(a[2], 64)
+            lo, hi = (-(1 << (bits - 1)), (1 << (bits - 1)) - 1) if a[2].startswith("i") else (0, (1 << bits) - 1)
+            r = a[1] + b[1] if op == "add" else a[1] - b[1]
+            return [(st, ("int", max(lo, min(hi, r)), a[2]))]
+        return [(st, ("sat_" + op, a, b))]
+    return m
+
+
 def m_discriminant_value(eng, st, args, info):
     v = eng.deref_value(st, args[0])
     if v[0] == "adt":
@@ -1371,6 +1383,29 @@ def m_prim_display(eng, st, args, info):
     return [(st, OK_UNIT)]
 
 
+NUM_FROM = re.compile(r"^core::convert::num::<impl core::convert::From<([a-z0-9]+)> for ([a-z0-9]+)>::from$")
+
+
+def m_num_from(eng, st, args, info):
+    m = NUM_FROM.match(info["key"])
+    if not m:
+        return None
+    return [(st, eng.cast(st, "IntToInt", args[0], m.group(2)))]
+
+
+def m_slice_len(eng, st, args, info):
+    v = args[0]
+    tgt = v[1] if v[0] == "ref" else None
+    if tgt and tgt[0] == "ext" and tgt[1][0] == "static" and not tgt[2]:
+        val = eng.P.values.get(tgt[1][1])
+        if val and val.get("tj", {}).get("k") == "array" and val["tj"].get("len") is not None:
+            return [(st, I(int(val["tj"]["len"]), "usize"))]
+    d = eng.deref_value(st, v)
+    if d[0] == "array":
+        return [(st, I(len(d[1]), "usize"))]
+    return [(st, ("len", v))]
+
+
 def m_unit(eng, st, args, info):
     return [(st, ("tuple", ()))]
 
@@ -1409,6 +1444,8 @@ DEFAULT_MODELS = {
     "core::num::wrapping_mul": m_wrapping("Mul"),
     "core::num::wrapping_add": m_wrapping("Add"),
     "core::num::wrapping_sub": m_wrapping("Sub"),
+    "core::num::saturating_sub": m_saturating("sub"),
+    "core::num::saturating_add": m_saturating("add"),
     "core::num::abs_diff": lambda eng, st, args, info: [(st, ("abs_diff",) + tuple(sorted(args, key=repr)))],
     "core::cmp::Ord::max": lambda eng, st, args, info: (m_max_min("max")(eng, st, args, info) or [(st, ("max",) + tuple(sorted(args, key=repr)))]),
     "core::cmp::Ord::min": lambda eng, st, args, info: (m_max_min("min")(eng, st, args, info) or [(st, ("min",) + tuple(sorted(args, key=repr)))]),
@@ -1428,6 +1465,8 @@ DEFAULT_MODELS = {
     "core::ops::function::FnMut::call_mut": m_call_once,
     "core::ops::function::Fn::call": m_call_once,
     "core::convert::Into::into": m_into,
+    "core::convert::num::from": m_num_from,
+    "core::slice::len": m_slice_len,
     "<T as core::convert::Into<U>>::into": m_into,
 }
 DEFAULT_MODELS = {k: v for k, v in DEFAULT_MODELS.items() if v is not None}
@@ -1552,10 +1591,24 @@ def concretize(eng, t, env):
         return ("cindex", v, t[2], t[3])
     if k == "app":
         args = tuple(concretize(eng, x, env) for x in t[2])
-        res = env.get("__apps__", {}).get(t[1])
+        res = env.get("__apps__")
         if res is not None:
-            return res(args)
+            r = res(t[1], args)
+            if r is not None:
+                return r
         return ("app", t[1], args)
+    if k in ("sat_sub", "sat_add"):
+        a, b = concretize(eng, t[1], env), concretize(eng, t[2], env)
+        if is_const(a) and is_const(b):
+            return m_saturating(k[4:])(eng, None, [a, b], None)[0][1]
+        return (k, a, b)
+    if k == "unwrap":
+        v = concretize(eng, t[1], env)
+        if v[0] == "adt" and v[2] == "Some":
+            return v[3][0]
+        if v[0] == "adt" and v[2] == "None":
+            return ("panic", "unwrap(None)", "")
+        return ("unwrap", v)
     if k == "cmp":
         a, b = concretize(eng, t[1], env), concretize(eng, t[2], env)
         if is_const(a) and is_const(b):
@@ -1597,6 +1650,30 @@ def cond_holds(eng, cond, env):
     if isinstance(v, tuple) and v and v[0] == "not":
         return c[1] not in v[1]
     return c[1] == v
+
+
+def select_leaf(eng, leaves, env):
+    """(leaf, None) for the unique leaf selected by `env`, or (None, reason)."""
+    hits = []
+    for lf in leaves:
+        ok, failed_assert = True, None
+        for c in lf.cond:
+            h = cond_holds(eng, c, env)
+            if h is None:
+                return None, ("undetermined", show(c[0]))
+            if not h:
+                if c[0][0] == "assert":
+                    failed_assert = c[0][1]
+                else:
+                    ok = False
+                break
+        if failed_assert:
+            hits.append((lf, ("panic", "assert:" + failed_assert, "")))
+        elif ok:
+            hits.append((lf, None))
+    if len(hits) != 1:
+        return None, ("ambiguous", len(hits))
+    return hits[0]
 
 
 def eval_table(eng, leaves, env):
